@@ -386,10 +386,11 @@ impl Scenario for C09 {
             _ => (0, 0),
         };
         // a background thread that polls every 20 ticks during the pause costs two decisions per poll
-        spec.step_cap = env_u64("VERIF_C09_CAP", 60_000 + 2_000 * consumed + idle / 4);
+        spec.step_cap = env_u64("VERIF_C09_CAP", 300_000 + 10_000 * consumed + idle / 2);
         if let Plan::Replay { traces, strict } = plan {
             spec = spec.replaying(traces.first().cloned().unwrap_or_default(), *strict);
         }
+        let spec_cap = spec.step_cap;
         let sc = self.clone();
         let scratch = if let Shape::Train(..) = self.shape {
             let d = crate::c20::ScratchDir::new("c09", self.run_seed);
@@ -624,6 +625,7 @@ impl Scenario for C09 {
         stats.param("w", self.w as i64);
         stats.param("cell", self.cell as i64);
         stats.probe_max("max_decisions_in_one_run", r.decisions);
+        stats.probe_max("max_step_cap_use_permille", r.decisions * 1000 / spec_cap);
         let violation = self.judge(&r, &mut stats);
         Outcome {
             violation,
